@@ -44,7 +44,9 @@ def cases(tier, seed):
                 pats = rnd.sample(pats, min(len(pats), 12))
             for pat in pats:
                 yield dict(calls=cfg, ts=tsn, maxlen=rnd.choice([0, 7, 16384, 65536]),
-                           pattern=list(pat), seed=seed)
+                           pattern=list(pat), seed=seed,
+                           reply_order=rnd.choice([None, None, 'reversed', 'accepted-only',
+                                                   'shuffled']))
     # a requester object whose first request is rejected and which is asked again: the second
     # A-ASSOCIATE-RQ must be built from the configuration just like the first
     for i in range(40 if tier == 'quick' else 1500):
@@ -77,7 +79,9 @@ def cases(tier, seed):
                 calls2.append((rnd.choice(['scu', 'scp', 'scp']), list(range(nxt, nxt + k))))
                 nxt += k
         yield dict(calls=calls, ts=rnd.randint(1, 3), maxlen=rnd.choice([0, 7, 128, 16384, 2 ** 32 - 1]),
-                   pattern=None, seed=seed * 100003 + i, calls2=calls2)
+                   pattern=None, seed=seed * 100003 + i, calls2=calls2,
+                   reply_order=rnd.choice([None, None, None, 'reversed', 'accepted-only',
+                                           'shuffled']))
 
 
 def _retry_case(case):
@@ -232,6 +236,16 @@ def run_case(case):
                 else:
                     res.append((pcid, code, tss[0] if rnd.random() < 0.5 else ''))
             decided.setdefault('results', res)
+            # the reply need not list its results in the order of the proposal, and some
+            # acceptors list only what they accept: results are matched by context id
+            if case.get('reply_order') == 'reversed':
+                return res[::-1]
+            if case.get('reply_order') == 'accepted-only':
+                return [r_ for r_ in res if r_[1] == 0]
+            if case.get('reply_order') == 'shuffled':
+                res2 = list(res)
+                rnd.shuffle(res2)
+                return res2
             return res
         world.serve_peer(ADDR, lambda sock: peers.ScriptedAcceptor(world.sim, sock, accept=accept,
                                                                     max_length=16384))
